@@ -1,4 +1,139 @@
-// unit `seqread` -- HEADER TO BE WRITTEN
+// unit `seqread` -- the READERS of a sequence-like shared type (yrs/src/branch.rs: `Branch::{get_at, first, len, content_len}`;
+// yrs/src/block_iter.rs: `BlockIter::{new, rel, finished, next_item, left, right, can_forward, forward, try_forward, slice,
+// read_value}`; yrs/src/types/array.rs: trait `Array` default methods `len`, `get`, `iter`, `ArrayIter::{from, from_ref, next}`,
+// `impl ToJson for ArrayRef`; yrs/src/types/text.rs: `impl GetString for TextRef`, `Text::len`; yrs/src/block.rs: `ItemContent::{len,
+// get_content}`, the `Any` / `JSON` arms of `ItemContent::read`, `Item::{is_deleted, is_countable, len, content_len}`, `ItemFlags`).
+// Serves C17 (KERNEL ONLY, the SEQUENCE half; the map half is unit `mapread`): "every way of reading a shared type tells the same
+// story: len equals the number of elements yielded by iteration and the size of to_json; get(i) equals the i-th iterated element
+// and returns nothing exactly when i is out of range; a text's length equals the length of get_string in the configured unit plus
+// one per embed ..." and the first mechanism of C03 ("index -> item position -- Branch::index_to_ptr, BlockIter::try_forward":
+// here the READ-ONLY walks `get_at` and `try_forward`; `index_to_ptr` splits blocks, it is a writer).
+// NOT here: `backward`, `delete`, `split_rel`, `insert_contents` (they mutate the list), `Text::diff` (formatting attributes), the
+// XML readers (`XmlFragment::{get, children}` go through `get_at` / `read_value`, both under contract here, and then through the
+// `XmlOut::try_from` conversions, which are not ingested), that integration keeps the cached counters right.
+//
+// THE VIEW (ONE for all readers; for EVERY list state -- tombstones, non-countable items anywhere, any block layout; no invariant
+// of the integration code is used).  c = chain(branch.start) = the items reachable through `.right`;  vis(p) := !deleted(p) &&
+// countable(p) (the two FLAGS of the item);
+//     V(branch) = view(c) := the concatenation, over the visible items of c in order, of elems(p.content)
+//   AN ELEMENT, per content kind (`ItemContent::elems_spec`, following `ItemContent::read`): Any(v): every value of v; JSON(v):
+//   every string of v as a text value; Binary: ONE buffer value; Doc: ONE sub-document; Type: ONE reference to the nested type;
+//   Embed: ONE value; String(s): one ONE-CHARACTER text value per `char` of s; Deleted / Format: none.
+//   locate(c, i) = WHERE V[i] LIVES: (index k of the item in c, offset o inside it); `lemma_locate`: None iff i >= |V|, else a
+//   visible item and V[i] == elems(c[k])[o].
+// ASSUMPTION A-LEN (`item_ok(p, kind)`, of every item of the chain, for the document's offset kind): for a VISIBLE item the
+//   three numbers the readers count with are the same and >= 1: `p.len` (get_at), `p.content.len(kind)` (BlockIter) and the number
+//   of elements `read` yields.  DERIVED (`lemma_item_ok_non_string`) from what `Item::new` establishes (`item_new_ok`: len ==
+//   content.len(Utf16) >= 1, countable flag == content kind) for EVERY content kind but String, in both offset kinds.  For String
+//   content it holds iff the string has as many chars as index units (`lemma_item_ok_string`): see OBSERVATION S1.
+// ABSTRACTION FUNCTION of a `BlockIter` cursor (next_item, rel, reached_end):
+//     ahead(cursor) := [] if reached_end, else view(chain(next_item)).skip(rel)        -- the elements still in front of it
+//     pos(cursor)   := |V| - |ahead(cursor)|                                          -- the position in V it stands for
+//   REPRESENTATION INVARIANT `wf`: the cursor is in order (`cursor_ok`: rel is 0 or an offset INSIDE the visible item under the
+//   cursor; no item only at the end), chain(next_item) is a suffix of c, rel <= index <= |V| and V[index ..] == ahead(cursor)
+//   (so pos(cursor) == index: `lemma_pos`).  Established by `new` (position 0), kept by try_forward / forward / slice / read_value.
+//
+// WHAT THE CODE CONSULTS BESIDES THE LIST: two CACHED counters of the branch.  `block_len` is what `Array::len` / `Branch::len`
+//   return and the buffer size of `to_json`; `content_len` is what `Text::len` returns AND what `try_forward` / `slice` /
+//   `finished` compare positions with.  They are maintained by integration / deletion; `counters_ok(b) := block_len == |V| &&
+//   content_len == |V|` is the ONE thing this unit cannot decide.  Every contract below is TOTAL in the counters: it says what
+//   the function does for EVERY value of them, and what that means when they are right.
+// CONTRACTS (whole functions; p = position / index before the call, cl = branch.content_len, A = ahead(cursor) before the call)
+//   Branch::get_at(i)        [A-LEN(Utf16)] Some((&c[k].content, o)) for (k, o) = locate(c, i) -- the content of the item holding V[i]
+//                            and the offset of V[i] in it -- ; None iff i >= |V|.
+//   Branch::first            the first item of c that is not a tombstone (countable or not), None if there is none.
+//   Branch::{len, content_len}, Array::len, Text::len      return the CACHED field (block_len resp. content_len).
+//   BlockIter::new           position 0, ahead == V, wf for every offset kind under which the chain is A-LEN.
+//   BlockIter::{rel, next_item, left, right}   the fields / field expressions they read (`left`: next_item at the end, else its
+//                            `.left`; `right`: None at the end, else next_item).
+//   BlockIter::finished      reached_end || index == cl;  with cl == |V|: <==> pos(cursor) == |V|.
+//   BlockIter::can_forward   !reached_end && (len > 0 || the item is INVISIBLE)  (the `|| self.reached_end` inside is dead).
+//   BlockIter::try_forward(n) [cursor part of wf; DOMAIN: index + n <= u32::MAX, unchecked addition]
+//                            TRUE iff (n == 0 on an empty list) or (p + n <= cl and the list is not empty); false changes nothing.
+//                            True: ahead == A.skip(min(n, |A|)), index == p + min(n, |A|): FROM POSITION p THE CURSOR STANDS AT
+//                            min(p + n, |V|); wf is kept; the cursor is NORMALISED: `reached_end`, or next_item is the VISIBLE
+//                            item that holds V[p + n] and rel < its length is the offset of V[p + n] in it (a target on a
+//                            block boundary is offset 0 of the NEXT visible item, never offset == length of the previous one;
+//                            trailing invisible items are passed).  Forward to EXACTLY the end (p + n == |V|) is allowed and
+//                            sets reached_end (`finished`).  With cl == |V|: true <==> p + n <= |V|.  The `return false`s inside
+//                            the loop are unreachable.
+//     theorem_index_to_position (pure)  such a cursor at index < |V| is EXACTLY locate(c, index): `try_forward(i)` on a new
+//                            BlockIter and `get_at(i)` designate the same (item, offset), and V[i] is that element.
+//   BlockIter::forward(n)    requires the `true` case of try_forward (else `panic!("Length exceeded")`), ensures its effect.
+//   BlockIter::slice(buf)    [wf; DOMAIN: buf.len() and index + buf.len() fit u32]  p + buf.len() > cl: the buffer is REFUSED AS
+//                            A WHOLE -- returns 0, nothing read, nothing changed (even if elements are ahead).  Otherwise
+//                            r == min(buf.len(), |V| - p), buf[0 .. r) == V[p .. p + r), the rest of buf untouched, cursor at
+//                            p + r, wf kept.  (r < buf.len() needs cl > |V|; then next_item is set to None at the end.)  The
+//                            early `return read` is unreachable.
+//   BlockIter::read_value    [wf; DOMAIN index < u32::MAX]  == get_spec(branch, p) := Some(V[p]) if p < |V| && p < cl, else None;
+//                            advances by one exactly when it answers.
+//   Array::get(i)            [A-LEN; DOMAIN i < u32::MAX]  == get_spec(branch, i); with cl == |V|: None <==> i >= |V|.
+//   ArrayIter::{from, from_ref}, Array::iter   position 0, pending == V.   ArrayIter::next  == get_spec(branch, p); Some: == pending[0],
+//                            pending' == pending.skip(1); None: nothing changes in `pending`; with cl == |V|: None <==> pending == [].
+//     lemma_drain (pure)     iterating to the end yields exactly what was pending, in order.
+//   <ArrayRef as ToJson>::to_json   REQUIRES block_len == 0 || (block_len <= |V| && block_len <= content_len): the WEAKEST
+//                            precondition under which its `panic!("Defect: Array::to_json didn't read all elements")` is
+//                            unreachable (proved).  ensures r == Any::Array(JSON images of V[0 .. block_len)); with block_len ==
+//                            |V|: of exactly V.  (A too SMALL block_len does not panic: to_json silently lists a prefix.)
+//   GetString::get_string    == text_of(c): the String contents of the items that are NOT TOMBSTONES, in list order.  It does not
+//                            test `is_countable` (a String item is countable by kind) and ignores embeds, formats, nested types.
+//   ItemContent::len         the real body.   ItemContent::read: STAND-IN body dispatching to the REAL arms `Any` and `JSON`
+//                            (`content_read_any`, `content_read_json`, R18 arm regions); contract `read_post`: for an offset inside
+//                            the content, elems[offset ..] are copied to the front of buf as far as both reach, count returned.
+//   ItemContent::get_content the real body: all elements if there are `len(Utf16)` of them (A-LEN); a prefix if more; NOTHING if fewer.
+//   STEP level (R18 regions, so that an edit of a loop body / prologue fails a contract clause of real code, not only a spliced
+//   invariant): get_at_step, try_forward_enter, try_forward_step, slice_enter, slice_step, slice_refill, get_string_step.
+// THE TYING THEOREM `theorem_seq_read_paths_agree` (pure), for EVERY branch state with A-LEN items:
+//   (1) get_at(i) finds an element exactly for 0 <= i < |V|, and it is V[i];  (2) get(i) / read_value / ArrayIter::next / slice
+//   never return anything but V[i], the element get_at(i) points to, and do return it for every i below the cached content_len;
+//   (3) to_json lists the JSON images of a prefix of V;  and UNDER ITS SINGLE PRECONDITION `counters_ok` (the cached counters
+//   equal |V|):  (4) get(i) == V[i] for i < len() and get(i) is None EXACTLY when i >= len();  (5) iter(), drained, yields exactly
+//   V in order: len() elements, the i-th being get(i);  (6) to_json is the array of the JSON images of exactly these: size len().
+// TEXT (`theorem_text_len`, pure, BOTH offset kinds): units_of(c, kind) -- the sum of content.len(kind) over the visible items:
+//   what `Text::len` returns when the cached `content_len` is right -- == text_len(get_string(), kind) + the number of visible
+//   non-string items ("plus one per embed").  Bytes lines up as well as Utf16 (lengths are additive under concatenation); known
+//   finding K3 is about OFFSETS inside a block, not about lengths.  `lemma_plain_text_view`: for a plain text V is the
+//   characters of get_string(), one element each -- |V| counts CHARS while len counts units/bytes; no reader of a text goes
+//   through `read` / BlockIter, so no two readers of a text disagree.
+//
+// FINDINGS: none on states the crate's own API produces -- with right counters all readers agree on every layout (tombstones,
+//   Format / collected items in between and trailing, `rel` at a block boundary, index == |V|, embeds in a text).
+// OBSERVATION S1 (reproduced through the public API: units/seqread/repro/main.rs; needs a hand-crafted update, like OBSERVATION C of
+//   `mapread`): String content inside an ARRAY (the Array API stores text as Any::String values; the decoder and integration accept
+//   any content kind under any parent).  A-LEN fails for a string with an astral character (len == content_len == 2 UTF-16 units,
+//   `read` yields 1 element: `observation_s1_string_item_breaks_a_len`) or, in a Bytes document, any non-ASCII character.  Then the
+//   loop of `slice` makes no progress (`read` returns 0 at offset 1, `rel + 0 != content_len`, `continue`): the termination proof
+//   of `slice` is exactly where A-LEN (r >= 1) is used.  apply_update of [1,1,1,0,4,1,1,'a',4,0xF0,0x9F,0x98,0x80,0] into a
+//   document with an array "a": len() == 2, get(0) == "\u{1F600}", and get(1), iter().collect(), to_json() DO NOT RETURN;
+//   Bytes document, content "\u{e9}": len() == 1, to_json() == ["\u{e9}"], get(1) and iter() do not return.  With BMP-only
+//   content in a UTF-16 document ("ab") all readers agree (2 one-character elements).
+// ------------------------------------------------------------------------------------------------------------------
+// LOWERING AND STAND-IN TYPES (everything not listed is extracted verbatim from /repo on every run)
+//   ItemPtr / BranchPtr   real: `NonNull` wrappers with Deref.  here `&'static Item` / `&'static Branch` (read-only lowering R15).
+//                ASSUMPTION A5: the pointees are alive and not mutated during a call / the life of an iterator; an immutable value
+//                of the lowered type IS a finite chain.  Spellings (identities on the lowered type; SUB, logged):
+//                `.as_deref()` -> ``, `self.start.as_ref()` -> `self.start`, `ptr.map(ItemPtr::deref)` -> `ptr`,
+//                `item.right.as_ref()` -> `item.right`, `self.0.deref()` -> `self.0`, `BranchPtr::from(self.as_ref())` ->
+//                `self.as_ref()` with `as_ref` returning `BranchPtr`, `array: &Branch` -> `array: BranchPtr`.
+//   Item         sliced to `len`, `left`, `right`, `info`, `content`.   Branch  sliced to `start`, `block_len`, `content_len`.
+//   ItemContent  the REAL enum declaration with payload types spelled as stand-ins: `Any` = enum { Null, Undefined, Prim, String,
+//                Buffer, Array } with ghost payloads (Copy; `Clone` returns an equal value); `Out` = { Any, YDoc, YRef };
+//                `Arc<str>` -> `Str`, `Doc`, `Box<Branch>` -> `TypeBox`: opaque identities; `String` = a vector of chars;
+//                `SplittableString` = its chars + its two lengths as fields (`str_ok` names their relation; `len` / `as_str`
+//                stand-in bodies).  `Out::to_json` is OPAQUE (`json_of`, closed).
+//   ReadTxn      `store().offset_kind` (`kind_spec`).  `Borrow<T>`: stand-in trait with the two std impls (T, &T).
+//   trait Array / Text / AsRef / ToJson / GetString / Iterator impls are emitted as inherent methods of ArrayRef / TextRef /
+//                ArrayIter (`Option<Self::Item>` -> `Option<Out>`); field visibility (`pub` added): SUB, logged.
+//   STAND-INS FOR std WITH VERIFIED BODIES (no external_body of this unit's own; each has std's documented behaviour as contract):
+//                `std::mem::replace` -> `vx_replace` (body: vstd's `mem::swap`);  `buf.into_iter()` -> `vx_into_iter(buf)` whose
+//                `.map(f)` / `.collect()` apply the REAL closure (`|v| v.to_json(txn)`, annotated with its contract: @closure) to
+//                every element in order -- the payload of `Any::Array` is a ghost sequence;  `String::{new, push_str}` (push_str
+//                applied to a `&SplittableString` through its Deref<Target = str>);  `Any::from(&str)`, `String::as_str`.
+//                vstd's own: `vec![x; n]`, slices (`&mut buf[a..]`, index assignment), arrays, `Vec::default`, `Option::clone`.
+//   `#[verifier::loop_isolation(false)]` + `allow_complex_invariants` on `get_at`: its contract speaks about the INITIAL value of
+//                the `mut index` parameter, which no loop invariant can name.
+// TRUSTED: nothing of its own.  `vx_unreachable` (vx/prelude.rs, R9: `panic!` = an obligation) is used by forward / to_json.
+// ------------------------------------------------------------------------------------------------------------------
 #![allow(unused_imports, unused_variables, unused_mut, dead_code, unused_parens, unused_braces, unused_assignments)]
 use vstd::prelude::*;
 use std::marker::PhantomData;
@@ -425,6 +560,18 @@ impl ItemContent {
             }
         }
     }
+}
+
+impl ItemContent {
+    /*@extract yrs/src/block.rs | impl ItemContent | fn get_content | label=content_get_content
+    @ret r
+    @sig
+        ensures
+            // all elements of the content -- if they are as many as its UTF-16 length says (A-LEN); the first `len` of them if
+            // there are more; NOTHING if there are fewer
+            r@ =~= (if self.elems_spec().len() >= self.len_spec(OffsetKind::Utf16) { self.elems_spec().take(self.len_spec(OffsetKind::Utf16) as int) } else { Seq::empty() }),
+            self.elems_spec().len() == self.len_spec(OffsetKind::Utf16) ==> r@ =~= self.elems_spec(),
+    @*/
 }
 
 /// number of elements `read` copies: as many as the content has from `offset` on and the buffer takes
@@ -981,26 +1128,27 @@ pub proof fn lemma_locate_at(c: Seq<ItemPtr>, k: int, o: int)
     }
 }
 
-/// INDEX -> ITEM POSITION: a normalised cursor of a well-formed `BlockIter` at position `index` stands ON the item and AT the
-/// offset where `locate` -- i.e. `Branch::get_at(index)` -- finds V[index]
-pub proof fn lemma_cursor_designates(it: &BlockIter, kind: OffsetKind)
+/// INDEX -> ITEM POSITION (first mechanism of C03).  A well-formed `BlockIter` at a position `index` < |V| whose cursor is
+/// NORMALISED (what `try_forward` leaves: at the end or on a visible item, `rel` inside it) stands ON the item and AT the offset
+/// where `locate` -- i.e. `Branch::get_at(index)` -- finds V[index]: both walks map an index to the same (item, offset)
+pub proof fn theorem_index_to_position(it: &BlockIter, kind: OffsetKind)
     requires
         it.wf(kind),
-        !it.reached_end,
-        it.next_item is Some,
-        vis(it.next_item.unwrap()),
-        it.rel < elems(it.next_item.unwrap()).len(),
+        it.index < bview(it.branch).len(),
+        !it.reached_end ==> it.next_item is Some && vis(it.next_item.unwrap()) && it.rel < elems(it.next_item.unwrap()).len(),
     ensures
+        !it.reached_end,
         ({
             let c0 = chain(it.branch.start);
             let k = c0.len() - chain(it.next_item).len();
             0 <= k < c0.len() && c0[k] == it.next_item.unwrap() && locate(c0, it.index as int) == Some((k, it.rel as int))
-                && it.index < bview(it.branch).len() && bview(it.branch)[it.index as int] == elems(it.next_item.unwrap())[it.rel as int]
+                && bview(it.branch)[it.index as int] == elems(it.next_item.unwrap())[it.rel as int]
         }),
 {
     let c0 = chain(it.branch.start);
     let p = it.next_item.unwrap();
     let k = c0.len() - chain(it.next_item).len();
+    assert(bview(it.branch).skip(it.index as int).len() > 0);
     lemma_view_step(p);
     assert(c0.skip(k)[0] == c0[k]);
     lemma_view_split(c0, k);
@@ -1139,6 +1287,26 @@ pub proof fn lemma_item_ok_string(p: &Item, kind: OffsetKind)
 {
 }
 
+/// OBSERVATION S1 (see the header), the item: a visible String item holding ONE astral character has len == 2 but ONE element --
+/// A-LEN fails for it (in a Bytes document already for any non-ASCII character)
+pub proof fn observation_s1_string_item_breaks_a_len(p: &Item, c: char)
+    requires
+        item_new_ok(p),
+        vis(p),
+        p.content is String,
+        p.content->String_0.str_ok(),
+        p.content->String_0.chars() == seq![c],
+        c as u32 >= 0x10000,
+    ensures
+        p.len == 2 && elems(p).len() == 1,
+        !item_ok(p, OffsetKind::Utf16) && !item_ok(p, OffsetKind::Bytes),
+{
+    let s = seq![c];
+    assert(s.skip(1) =~= Seq::<char>::empty());
+    assert(utf16_len(s.skip(1)) == 0);
+    assert(utf16_len(s) == c_utf16(s[0]) + utf16_len(s.skip(1)));
+}
+
 pub proof fn lemma_text_len_add(a: Seq<char>, b: Seq<char>, kind: OffsetKind)
     ensures
         text_len(a + b, kind) == text_len(a, kind) + text_len(b, kind),
@@ -1187,6 +1355,32 @@ pub open spec fn text_item_ok(p: &Item) -> bool {
     &&& !(p.content is Any) && !(p.content is JSON)
 }
 
+/// the one-character text value `read` yields for a character
+pub open spec fn char_out(c: char) -> Out {
+    Out::Any(Any::String(Ghost(seq![c])))
+}
+
+/// a PLAIN text (every visible item is a string): V has one element per CHARACTER of `get_string()`, in order.
+/// OBSERVATION: |V| counts characters, `Text::len` counts UTF-16 units or bytes -- they differ as soon as the text holds an
+/// astral (resp. non-ASCII) character; no reader of a text goes through `read` / `BlockIter`, so no two readers disagree.
+pub proof fn lemma_plain_text_view(c: Seq<ItemPtr>)
+    requires
+        forall|i: int| 0 <= i < c.len() ==> text_item_ok(#[trigger] c[i]) && (c[i].content is String || !vis(c[i])),
+    ensures
+        view(c) =~= text_of(c).map_values(|ch: char| char_out(ch)),
+    decreases c.len(),
+{
+    if c.len() > 0 {
+        let t = c.skip(1);
+        assert forall|i: int| 0 <= i < t.len() implies text_item_ok(#[trigger] t[i]) && (t[i].content is String || !vis(t[i])) by {
+            assert(t[i] == c[i + 1]);
+        }
+        lemma_plain_text_view(t);
+        assert(text_item_ok(c[0]));
+        assert(velems(c[0]) =~= item_text(c[0]).map_values(|ch: char| char_out(ch)));
+    }
+}
+
 /// TEXT: "a text's length equals the length of get_string in the configured unit plus one per embed" -- over the view, in BOTH
 /// offset kinds: the number of index units of the chain (what `Text::len` returns if the cached counter `content_len` is right)
 /// is the length of `get_string()` in the unit `kind` plus the number of visible non-string items
@@ -1209,6 +1403,48 @@ pub proof fn theorem_text_len(c: Seq<ItemPtr>, kind: OffsetKind)
         assert(text_len(Seq::<char>::empty(), kind) == 0);
     } else {
         assert(text_len(Seq::<char>::empty(), kind) == 0);
+    }
+}
+
+/// one turn of the loop of `try_forward` on the item `i`, `len` elements still to pass
+pub proof fn lemma_fwd_step(b0: Seq<Out>, n: int, c0: Seq<ItemPtr>, i: ItemPtr, len: int, kind: OffsetKind)
+    requires
+        fwd_inv(b0, n, Some(i), len, 0, false, kind),
+        walk_inv(c0, chain(Some(i))),
+        // the loop condition
+        len > 0 || !vis(i),
+    ensures
+        item_ok(i, kind),
+        walk_inv(c0, chain(i.right)),
+        cursor_measure(i.right, false) == cursor_measure(Some(i), false) - 2,
+        // the target lies inside this item: stop on it
+        vis(i) && len > 0 && clen(i, kind) > len ==> fwd_done(b0, n, Some(i), 0, len, false, kind),
+        // otherwise it is passed
+        !(vis(i) && len > 0 && clen(i, kind) > len) ==> ({
+            let u = if vis(i) && len > 0 { clen(i, kind) } else { 0 };
+            &&& 0 <= u <= len
+            &&& i.right is Some ==> fwd_inv(b0, n, i.right, len - u, 0, false, kind)
+            &&& i.right is None ==> fwd_inv(b0, n, Some(i), len - u, 0, true, kind)
+        }),
+{
+    lemma_view_step(i);
+    lemma_walk_step(c0, i, kind);
+    lemma_view_len(chain(i.right));
+    let w = view(chain(Some(i)));
+    let rest = view(chain(i.right));
+    assert(w =~= velems(i) + rest);
+    assert(w =~= b0.skip(n - len));
+    if vis(i) && len > 0 && clen(i, kind) > len {
+        assert(w.skip(len) =~= b0.skip(n));
+        assert(n <= b0.len());
+    } else {
+        let u = if vis(i) && len > 0 { clen(i, kind) } else { 0 };
+        assert(u == velems(i).len());
+        assert(b0.skip(n - len).skip(u) =~= b0.skip(n - len + u));
+        assert(w.skip(u) =~= rest);
+        if i.right is None {
+            assert(rest =~= Seq::<Out>::empty());
+        }
     }
 }
 
@@ -1277,8 +1513,6 @@ impl BlockIter {
             r == (!self.reached_end && (len > 0 || (ptr is Some && !vis(ptr.unwrap())))),
     @*/
 
-    #[verifier::loop_isolation(false)]
-    #[verifier::allow_complex_invariants]
     /*@extract yrs/src/block_iter.rs | impl BlockIter | fn try_forward | label=block_iter_try_forward
     @ret r
     @sig
@@ -1344,24 +1578,17 @@ impl BlockIter {
             walk_inv(c0, chain(item)),
             cursor_measure(item, self.reached_end) <= m0,
             re0 ==> self.reached_end,
+            encoding == kind,
+            m0 == cursor_measure(ni0, re0),
+            re0 || ni0 is Some,
         ensures
             fwd_done(b0, nn, item, len as int, self.rel as int, self.reached_end, kind),
             cursor_measure(item, self.reached_end) < m0 || re0 || vis(ni0.unwrap()),
         decreases
             cursor_measure(item, self.reached_end),
     @loopstart 1
-        let ghost vx_i = item.unwrap();
-        let ghost vx_len = len as int;
         proof {
-            lemma_view_step(vx_i);
-            lemma_walk_step(c0, vx_i, kind);
-            lemma_view_len(chain(vx_i.right));
-            assert(b0.skip(nn - vx_len).skip(velems(vx_i).len() as int) =~= b0.skip(nn - vx_len + velems(vx_i).len()));
-            assert((velems(vx_i) + view(chain(vx_i.right))).skip(velems(vx_i).len() as int) =~= view(chain(vx_i.right)));
-        }
-    @before 1 `stmt:break`
-        proof {
-            assert(view(chain(item)).skip(vx_len) =~= b0.skip(nn));
+            lemma_fwd_step(b0, nn, c0, item.unwrap(), len as int, kind);
         }
     @afterloop 1
         proof {
@@ -1443,6 +1670,33 @@ pub proof fn lemma_slice_read(a0: Seq<Out>, l: int, buf0: Seq<Out>, buf: Seq<Out
     } else {
         assert(w.skip(rel).skip(r) =~= w.skip(rel + r));
         assert(a0.skip(read).skip(r) =~= a0.skip(read + r));
+    }
+}
+
+/// what a `read` into the subslice buf[read ..] means for the whole buffer
+pub proof fn lemma_read_into_tail(e: Seq<Out>, rel: int, buf0: Seq<Out>, buf1: Seq<Out>, read: int, n: int)
+    requires
+        0 <= read <= buf0.len(),
+        buf1.len() == buf0.len(),
+        0 <= rel < e.len(),
+        read_post(e, rel, buf0.subrange(read, buf0.len() as int), buf1.subrange(read, buf0.len() as int), n),
+        buf1.subrange(0, read) =~= buf0.subrange(0, read),
+    ensures
+        n == min(e.len() - rel, buf0.len() - read),
+        forall|j: int| read <= j < read + n ==> #[trigger] buf1[j] == e[rel + j - read],
+        forall|j: int| 0 <= j < buf0.len() && !(read <= j < read + n) ==> #[trigger] buf1[j] == buf0[j],
+{
+    let l = buf0.len() as int;
+    assert(buf0.subrange(read, l).len() == l - read);
+    assert forall|j: int| read <= j < read + n implies #[trigger] buf1[j] == e[rel + j - read] by {
+        assert(buf1.subrange(read, l)[j - read] == e[rel + (j - read)]);
+    }
+    assert forall|j: int| 0 <= j < l && !(read <= j < read + n) implies #[trigger] buf1[j] == buf0[j] by {
+        if j < read {
+            assert(buf1.subrange(0, read)[j] == buf0.subrange(0, read)[j]);
+        } else {
+            assert(buf1.subrange(read, l)[j - read] == buf0.subrange(read, l)[j - read]);
+        }
     }
 }
 
@@ -1870,6 +2124,69 @@ pub open spec fn clen(p: &Item, kind: OffsetKind) -> int {
         },
 @*/
 
+// the statements of `try_forward` between the two guards and the loop (`let mut item = ..; self.index += len; if self.rel != 0 {..}`).
+// Result: (item, len) as the loop sees them
+/*@extract yrs/src/block_iter.rs | impl BlockIter | region try_forward | stmt=stmt:let item | stmtnth=1 | upto=stmt:if ^ self.rel | tail=(item, len) | label=try_forward_enter | rules=SUB(from=self.;;to=it.)
+@header
+    pub fn try_forward_enter(it: &mut BlockIter, mut len: u32) -> (r: (Option<ItemPtr>, u32))
+@sig
+    requires
+        old(it).index + len <= u32::MAX,
+        old(it).rel <= old(it).index,
+    ensures
+        final(it).branch == old(it).branch && final(it).next_item == old(it).next_item && final(it).reached_end == old(it).reached_end,
+        // the walk starts on the item under the cursor, at ITS beginning: the offset `rel` inside it is added to what has to be passed
+        r.0 == old(it).next_item && r.1 == len + old(it).rel && final(it).rel == 0,
+        // `index` is moved to the target at once (the loop gives back what it could not pass)
+        final(it).index == old(it).index + len,
+@*/
+
+// the statements of `slice` in front of its loops.  Result: None = the buffer is refused (`return 0`), Some((len, next_item, read))
+/*@extract yrs/src/block_iter.rs | impl BlockIter | region slice | stmt=stmt:let len | stmtnth=1 | upto=stmt:let read | tail=Some((len, next_item, read)) | label=slice_enter | rules=SUB(from=self.;;to=it.) SUB(from=return 0;;to=return None)
+@header
+    pub fn slice_enter<T: ReadTxn>(it: &mut BlockIter, txn: &T, buf: &mut [Out]) -> (r: Option<(u32, Option<ItemPtr>, u32)>)
+@sig
+    requires
+        old(buf)@.len() <= u32::MAX,
+        old(it).index + old(buf)@.len() <= u32::MAX,
+    ensures
+        final(buf)@ == old(buf)@,
+        // a buffer that reaches beyond the cached counter is refused as a whole
+        old(it).index + old(buf)@.len() > old(it).branch.content_len ==> r is None && *final(it) == *old(it),
+        // otherwise: as many elements as the buffer holds are wanted, none is read yet, the walk starts at the cursor, and `index`
+        // is moved by the whole buffer length at once
+        old(it).index + old(buf)@.len() <= old(it).branch.content_len ==> r == Some((old(buf)@.len() as u32, old(it).next_item, 0u32))
+            && final(it).index == old(it).index + old(buf)@.len()
+            && final(it).branch == old(it).branch && final(it).next_item == old(it).next_item && final(it).rel == old(it).rel && final(it).reached_end == old(it).reached_end,
+@*/
+
+// the statement of `slice` behind its inner loop: when the inner loop stopped on an item that is not countable, the cursor is
+// handed to `try_forward(txn, 0)`, which passes the invisible items.  Result: (next_item, Some(read) = the early `return read`)
+/*@extract yrs/src/block_iter.rs | impl BlockIter | region slice | stmt=stmt:if ^ len > 0 | stmtnth=2 | tail=(next_item, None) | label=slice_refill | rules=SUB(from=self.;;to=it.) SUB(from=return read;;to=return (next_item, Some(read)))
+@header
+    pub fn slice_refill<T: ReadTxn>(it: &mut BlockIter, txn: &T, mut next_item: Option<ItemPtr>, read: u32, len: u32) -> (r: (Option<ItemPtr>, Option<u32>))
+@sig
+    requires
+        // the cursor (next_item, rel, reached_end) is in order, `index` is ahead of it but not beyond the cached counter
+        cursor_ok(next_item, old(it).rel as int, old(it).reached_end, txn.kind_spec()),
+        walk_inv(chain(old(it).branch.start), chain(next_item)),
+        old(it).rel <= old(it).index <= old(it).branch.content_len,
+    ensures
+        final(it).branch == old(it).branch && final(it).index == old(it).index,
+        // the early `return read` is never taken
+        r.1 is None,
+        // at the end, or nothing more is wanted: nothing happens
+        !(!old(it).reached_end && len > 0) ==> r.0 == next_item && final(it).rel == old(it).rel && final(it).reached_end == old(it).reached_end,
+        // otherwise the cursor is NORMALISED: the same elements are ahead, and it stands at the end or on a visible item
+        !old(it).reached_end && len > 0 ==> {
+            &&& ahead_of(r.0, final(it).rel as int, final(it).reached_end) =~= ahead_of(next_item, old(it).rel as int, old(it).reached_end)
+            &&& cursor_ok(r.0, final(it).rel as int, final(it).reached_end, txn.kind_spec())
+            &&& walk_inv(chain(old(it).branch.start), chain(r.0))
+            &&& final(it).rel <= old(it).rel
+            &&& final(it).reached_end || (r.0 is Some && vis(r.0.unwrap()))
+        },
+@*/
+
 // body of the inner loop of `slice`.  Result: (next_item, read, len, how the body was left: 0 = fell through, 1 = `continue`, 2 = `break`)
 /*@extract yrs/src/block_iter.rs | impl BlockIter | region slice | stmt=stmt:while #2 >> stmt:if | stmtnth=1 | tail=(next_item, read, len, 0u8) | label=slice_step | rules=SUB(from=self.;;to=it.) SUB(from=continue;;to=return (next_item, read, len, 1u8)) SUB(from=break;;to=return (next_item, read, len, 2u8))
 @header
@@ -1897,8 +2214,8 @@ pub open spec fn clen(p: &Item, kind: OffsetKind) -> int {
         vis(item) && !old(it).reached_end && len > 0 ==> {
             let n = min(elems(item).len() - old(it).rel, len as int);
             &&& r.1 == read + n && r.2 == len - n
-            &&& forall|j: int| 0 <= j < n ==> final(buf)@[read + j] == elems(item)[old(it).rel + j]
-            &&& forall|j: int| 0 <= j < old(buf)@.len() && !(read <= j < read + n) ==> final(buf)@[j] == old(buf)@[j]
+            &&& forall|j: int| read <= j < read + n ==> #[trigger] final(buf)@[j] == elems(item)[old(it).rel + j - read]
+            &&& forall|j: int| 0 <= j < old(buf)@.len() && !(read <= j < read + n) ==> #[trigger] final(buf)@[j] == old(buf)@[j]
             // the whole rest of the item was read: offset 0 of the right neighbour (or the end) ...
             &&& old(it).rel + n == elems(item).len() ==> r.3 == 0 && final(it).rel == 0
                 && (item.right is Some ==> r.0 == item.right && !final(it).reached_end)
@@ -1906,6 +2223,12 @@ pub open spec fn clen(p: &Item, kind: OffsetKind) -> int {
             // ... or the buffer is full: stay inside the item, n elements further
             &&& old(it).rel + n != elems(item).len() ==> r.3 == 1 && final(it).rel == old(it).rel + n && r.0 == next_item && !final(it).reached_end
         },
+@start
+    let ghost vx_buf = buf@;
+@after 1 `stmt:let r`
+    proof {
+        lemma_read_into_tail(elems(item), it.rel as int, vx_buf, buf@, read as int, r as int);
+    }
 @*/
 
 // body of the loop of `get_string`
